@@ -166,7 +166,7 @@ var specs = []*spec{
 		},
 		samples: []string{`<item xmlns="urn:xmpp:blocking" jid="a@example.net"><report xmlns="urn:xmpp:reporting:1" reason="urn:xmpp:reporting:spam"><stanza-id xmlns="urn:xmpp:sid:0" by="a@example.net" id="x"/><text>t</text></report></item>`}},
 	{name: "bookmarks.Channel", group: "roster-muc", typ: typeOf(bookmarks.Channel{}),
-		pools: map[string][]any{"Extensions": P(nil, []byte(`<a xmlns="urn:x"/>`), []byte(`<a xmlns="urn:x" k="v&amp;">t&lt;<b/></a><c xmlns="urn:y"/>`))},
+		pools: map[string][]any{"Extensions": P(nil, []byte(`<a xmlns="urn:x"/>`), []byte(`<a xmlns="urn:x" k="v&amp;">t&lt;<b/></a><c xmlns="urn:y"/>`), []byte(`<state xmlns:x="urn:x2" xmlns="urn:state" x:minimized="true"/>`), []byte(`<state xmlns="urn:state" xmlns:x="urn:x2" xmlns:y="urn:y2" y:k="v"><x:i/></state>`))},
 		// XEP-0402: the JID of the room is the pubsub item id, not part of the
 		// conference payload; extensions are compared as XML trees
 		norm: func(p any) {
